@@ -1,6 +1,216 @@
-import CCT.Model.Signing
-/-! # C18 — in-place signing is all-or-nothing (model below; more theorems follow) -/
+import CCT.Model.SignSteps
+import CCT.Props.C11
+/-!
+# C18 — in-place signing is all-or-nothing with respect to failures  (partial: the OS is run, not modelled)
+
+Model: `CCT/Model/SignSteps.lean`.  The correspondence check enumerates, on the real code, a fault at every executed line before the
+output phase and compares the `open()` sequence and the file bytes with what these theorems say.
+-/
 namespace CCT.C18
 open CCT
-theorem placeholder : okU = .ok () := rfl
+open Classical
+
+/-- a step outside the output phase never changes the file and never opens it for writing -/
+theorem compute_step_preserves (C : CryptoFns) (key : J) (st st' : SignSt) (s : SignStep) (hs : s.isOutput = false)
+    (h : execStep C key st s = .ok st') : st'.file = st.file ∧ (OpenEv.write ∈ st'.opens ↔ OpenEv.write ∈ st.opens) := by
+  cases s with
+  | openTrunc => simp [SignStep.isOutput] at hs
+  | write => simp [SignStep.isOutput] at hs
+  | validate =>
+    simp only [execStep, bind, Except.bind] at h
+    split at h
+    · cases h
+    · cases h; exact ⟨rfl, Iff.rfl⟩
+  | openRead =>
+    simp only [execStep] at h
+    split at h
+    · cases h; exact ⟨rfl, by simp⟩
+    · cases h
+  | parse =>
+    simp only [execStep] at h
+    split at h
+    · cases h; exact ⟨rfl, Iff.rfl⟩
+    · cases h
+  | checkPackages =>
+    simp only [execStep, bind, Except.bind] at h
+    split at h
+    · cases h
+    · split at h
+      · cases h
+      · cases h; exact ⟨rfl, Iff.rfl⟩
+  | reset =>
+    simp only [execStep] at h
+    split at h
+    · cases h; exact ⟨rfl, Iff.rfl⟩
+    · cases h
+  | signOne n md => simp only [execStep] at h; cases h; exact ⟨rfl, Iff.rfl⟩
+  | finish =>
+    simp only [execStep] at h
+    split at h
+    · cases h; exact ⟨rfl, Iff.rfl⟩
+    · cases h
+  | serialize => simp only [execStep] at h; cases h; exact ⟨rfl, Iff.rfl⟩
+
+/-- running any list of non-output steps, under any fault plan, leaves the file as it was and never opens it for writing -/
+theorem no_write_before_output (C : CryptoFns) (key : J) (fault : Option Nat) :
+    ∀ (steps : List SignStep) (i : Nat) (st : SignSt), (∀ s ∈ steps, s.isOutput = false) →
+      (runSteps C key fault i steps st).2.file = st.file ∧
+      (OpenEv.write ∈ (runSteps C key fault i steps st).2.opens ↔ OpenEv.write ∈ st.opens)
+  | [], _, _, _ => ⟨rfl, Iff.rfl⟩
+  | s :: r, i, st, h => by
+    simp only [runSteps]
+    split
+    · exact ⟨rfl, Iff.rfl⟩
+    · cases he : execStep C key st s with
+      | error e => exact ⟨rfl, Iff.rfl⟩
+      | ok st' =>
+        have hp := compute_step_preserves C key st st' s (h s (by simp)) he
+        have ih := no_write_before_output C key fault r (i + 1) st' (fun x hx => h x (by simp [hx]))
+        simp only
+        exact ⟨ih.1.trans hp.1, ih.2.trans hp.2⟩
+
+theorem runSteps_append_fault (C : CryptoFns) (key : J) (k : Nat) :
+    ∀ (pre post : List SignStep) (i : Nat) (st : SignSt), k < i + pre.length →
+      runSteps C key (some k) i (pre ++ post) st = runSteps C key (some k) i pre st ∨
+      (runSteps C key (some k) i pre st).1 = .done
+  | [], _, i, _, h => by simp at h; right; rfl
+  | s :: r, post, i, st, h => by
+    simp only [List.cons_append, runSteps]
+    split
+    · left; rfl
+    · cases he : execStep C key st s with
+      | error e => left; rfl
+      | ok st' =>
+        simp only
+        exact runSteps_append_fault C key k r post (i + 1) st' (by simp at h; omega)
+
+/-- a fault injected at a step index inside a prefix always stops the run inside that prefix -/
+theorem fault_stops_in_prefix (C : CryptoFns) (key : J) (k : Nat) :
+    ∀ (pre : List SignStep) (i : Nat) (st : SignSt), i ≤ k → k < i + pre.length → (runSteps C key (some k) i pre st).1 ≠ .done
+  | [], i, _, h1, h2 => by simp at h2; omega
+  | s :: r, i, st, h1, h2 => by
+    simp only [runSteps]
+    by_cases e : k = i
+    · subst e; simp
+    · have : ¬ (some k = some i) := fun h => e (Option.some.inj h)
+      simp only [this, if_false]
+      cases he : execStep C key st s with
+      | error e => simp
+      | ok st' => exact fault_stops_in_prefix C key k r (i + 1) st' (by omega) (by simp at h2; omega)
+
+/-- the compute phase of the plan: everything but the last two steps -/
+def computePart (file : Option Bytes) : List SignStep := (signPlan file).dropLast.dropLast
+
+theorem computePart_eq (file : Option Bytes) : computePart file =
+    [SignStep.validate, .openRead, .parse, .checkPackages, .reset] ++ (planArts file).map (fun a => SignStep.signOne a.1 a.2) ++ [SignStep.finish, .serialize] := by
+  simp [computePart, signPlan, List.dropLast_append_of_ne_nil, List.dropLast]
+
+theorem signPlan_split (file : Option Bytes) : signPlan file = computePart file ++ [.openTrunc, .write] := by
+  rw [computePart_eq]; simp [signPlan]
+
+theorem computePart_no_output (file : Option Bytes) : ∀ s ∈ computePart file, s.isOutput = false := by
+  intro s hs
+  rw [computePart_eq] at hs
+  simp only [List.mem_append, List.mem_cons, List.mem_nil_iff, or_false, List.mem_map] at hs
+  rcases hs with (((rfl | rfl | rfl | rfl | rfl) | ⟨a, _, rfl⟩) | (rfl | rfl)) <;> rfl
+
+/-- **a failure at any step before the output phase — wherever it is injected — leaves the file on disk byte-identical and the file is
+never opened for writing**, for every document, key and fault point -/
+theorem fault_anywhere_before_output (C : CryptoFns) (key : J) (file : Option Bytes) (k : Nat) (hk : k < (computePart file).length) :
+    (runSteps C key (some k) 0 (signPlan file) (initSt file)).2.file = file ∧
+    OpenEv.write ∉ (runSteps C key (some k) 0 (signPlan file) (initSt file)).2.opens := by
+  rw [signPlan_split]
+  rcases runSteps_append_fault C key k (computePart file) [.openTrunc, .write] 0 (initSt file) (by omega) with h | h
+  · rw [h]
+    have := no_write_before_output C key (some k) (computePart file) 0 (initSt file) (computePart_no_output file)
+    exact ⟨this.1, fun hw => by have := this.2.mp hw; simp [initSt] at this⟩
+  · exact absurd h (fault_stops_in_prefix C key k (computePart file) 0 (initSt file) (by omega) (by omega))
+
+/-- **any failure of the library itself (bad key, malformed input, missing file, …) leaves the file untouched** -/
+theorem failure_leaves_file (C : CryptoFns) (key : J) (file : Option Bytes) (e : PyErr) (st : SignSt)
+    (h : runSteps C key none 0 (signPlan file) (initSt file) = (.failed e, st)) : st.file = file := by
+  -- the two output steps cannot fail, so the failure happened in the compute part, which preserves the file
+  rw [signPlan_split] at h
+  have key_lemma : ∀ (pre : List SignStep) (i : Nat) (s0 : SignSt), (∀ s ∈ pre, s.isOutput = false) →
+      runSteps C key none i (pre ++ [.openTrunc, .write]) s0 = (.failed e, st) → st.file = s0.file := by
+    intro pre
+    induction pre with
+    | nil =>
+      intro i s0 _ h
+      simp [runSteps, execStep] at h
+    | cons s r ih =>
+      intro i s0 hno h
+      simp only [List.cons_append, runSteps] at h
+      have : ¬ ((none : Option Nat) = some i) := by simp
+      simp only [this, if_false] at h
+      cases he : execStep C key s0 s with
+      | error e' => rw [he] at h; simp only at h; cases h; rfl
+      | ok s1 =>
+        rw [he] at h; simp only at h
+        have hp := compute_step_preserves C key s0 s1 s (hno s (by simp)) he
+        exact (ih (i + 1) s1 (fun x hx => hno x (by simp [hx])) h).trans hp.1
+  exact key_lemma (computePart file) 0 (initSt file) (computePart_no_output file) h
+
+/-- **output is written only after every signature has been computed and the result serialized**: on success the file holds exactly the
+serialized result and was opened once for reading and once, afterwards, for writing -/
+theorem success_writes_once (C : CryptoFns) (key : J) (file : Option Bytes) (st : SignSt)
+    (h : runSteps C key none 0 (signPlan file) (initSt file) = (.done, st)) :
+    st.file = st.out ∧ st.opens = [.read, .write] := by
+  rw [signPlan_split] at h
+  have key_lemma : ∀ (pre : List SignStep) (i : Nat) (s0 : SignSt), (∀ s ∈ pre, s.isOutput = false) →
+      runSteps C key none i (pre ++ [.openTrunc, .write]) s0 = (.done, st) →
+      st.file = st.out ∧ ∃ s1, st.opens = s1.opens ++ [.write] ∧ (runSteps C key none i pre s0) = (.done, s1) := by
+    intro pre
+    induction pre with
+    | nil =>
+      intro i s0 _ h
+      simp [runSteps, execStep] at h
+      subst h
+      exact ⟨rfl, s0, rfl, rfl⟩
+    | cons s r ih =>
+      intro i s0 hno h
+      simp only [List.cons_append, runSteps] at h ⊢
+      have : ¬ ((none : Option Nat) = some i) := by simp
+      simp only [this, if_false] at h ⊢
+      cases he : execStep C key s0 s with
+      | error e' => rw [he] at h; simp at h
+      | ok s1 => rw [he] at h; simp only at h ⊢; exact ih (i + 1) s1 (fun x hx => hno x (by simp [hx])) h
+  obtain ⟨h1, s1, h2, h3⟩ := key_lemma (computePart file) 0 (initSt file) (computePart_no_output file) h
+  refine ⟨h1, ?_⟩
+  rw [h2]
+  -- in the compute part the only open is the read in `load`
+  have opens_lemma : ∀ (pre : List SignStep) (i : Nat) (s0 s1 : SignSt), runSteps C key none i pre s0 = (.done, s1) →
+      s1.opens = s0.opens ++ (pre.filter (fun s => match s with | .openRead => true | .openTrunc => true | _ => false)).map
+        (fun s => match s with | .openTrunc => OpenEv.write | _ => OpenEv.read) := by
+    intro pre
+    induction pre with
+    | nil => intro i s0 s1 h; simp [runSteps] at h; subst h; simp
+    | cons s r ih =>
+      intro i s0 s1 h
+      simp only [runSteps] at h
+      have : ¬ ((none : Option Nat) = some i) := by simp
+      simp only [this, if_false] at h
+      cases he : execStep C key s0 s with
+      | error e' => rw [he] at h; simp at h
+      | ok s2 =>
+        rw [he] at h; simp only at h
+        have := ih (i + 1) s2 s1 h
+        rw [this]
+        cases s <;> simp only [execStep, bind, Except.bind] at he <;>
+          first
+          | (cases he; simp)
+          | (split at he <;> first | (cases he; simp) | cases he | (split at he <;> first | (cases he; simp) | cases he))
+  have := opens_lemma (computePart file) 0 (initSt file) s1 h3
+  rw [this]
+  simp only [initSt, List.nil_append]
+  -- exactly one `load` and no `openTrunc` in the compute part
+  rw [computePart_eq]
+  simp only [List.filter_append, List.map_append]
+  have : ((planArts file).map (fun a => SignStep.signOne a.1 a.2)).filter (fun s => match s with | .openRead => true | .openTrunc => true | _ => false) = [] := by
+    induction planArts file with
+    | nil => rfl
+    | cons a r ih => simp [List.filter, ih]
+  rw [this]
+  rfl
+
 end CCT.C18
